@@ -61,6 +61,11 @@ extern "C" {
  */
 typedef union
 {
+#if defined(ASCON_SUITE_VERIF)
+    /* Verification hook: a byte view declared first so that bounded
+     * model checkers encode the union byte-wise.  No effect on layout. */
+    uint8_t verif_bytes_first[40];
+#endif
     uint64_t S[5];                  /**< 64-bit words of the state */
     uint32_t W[10];                 /**< 32-bit words of the state */
     uint8_t B[40];                  /**< Bytes of the state */
